@@ -21,8 +21,6 @@ structure CL where
   cur : Nat := 0
   M : Nat := 2 ^ 32
   ub : Bool := false
-  /-- ghost: how often `getNextCounter` took its wrap branch in this object -/
-  wraps : Nat := 0
 
 instance : Inhabited CL := ⟨{}⟩
 
@@ -36,11 +34,14 @@ def setOnes (h : Heap) : Nat → Option Nat → Heap
   | _ + 1, none => h
   | f + 1, some n => setOnes (upd h n { h n with counter := 1 }) f (h n).next
 
+/-- does the next `getNextCounter` take its wrap branch? -/
+def CL.willWrap (l : CL) : Bool := (l.cur + 1) % l.M == 0
+
 /-- `getNextCounter`: `++currentCounter`; on wrap to 0 rewrite every linked node to 1 and
     draw again. Returns the new list state and the drawn generation. -/
 def CL.nextCounter (l : CL) (fuel : Nat) : CL × Nat :=
   if (l.cur + 1) % l.M = 0 then
-    ({ l with heap := setOnes l.heap fuel l.head, cur := 1, wraps := l.wraps + 1 }, 1)
+    ({ l with heap := setOnes l.heap fuel l.head, cur := 1 }, 1)
   else ({ l with cur := l.cur + 1 }, l.cur + 1)
 
 /-- Link an allocated node `id` at the back (body of `append`). -/
@@ -128,14 +129,6 @@ def seek (h : Heap) (captured : Nat) : Nat → Option Nat → Option Nat
   | 0, _ => none
   | _ + 1, none => none
   | f + 1, some n => if guard (h n).counter captured then some n else seek h captured f (h n).next
-
-/-- `doFreeAllNodes`: sever all links.  The nodes are released (no traversal may be running
-    on this object, see DESIGN §4), which the model records as `counter = 0`, the only thing a
-    handle can still observe. -/
-def freeAll (h : Heap) : Nat → Option Nat → Heap
-  | 0, _ => h
-  | _ + 1, none => h
-  | f + 1, some n => freeAll (upd h n { h n with prev := none, next := none, counter := 0 }) f (h n).next
 
 /-- The chain of node ids reachable from `start` by `next` (bounded walk). -/
 def chainOf (h : Heap) : Nat → Option Nat → List Nat
